@@ -96,7 +96,7 @@ def memDiff (old new : Machine) : String := Id.run do
   return if s.isEmpty then " -" else s
 
 def showWorld (w : World) : String :=
-  charsHex w.out ++ " " ++ toString w.inp.length
+  charsHex w.output ++ " " ++ toString w.inp.length
 
 def showStep (old : Machine) : StepResult → String
   | .ok m w => "ok " ++ showRegs m ++ " |" ++ memDiff old m ++ " | " ++ showWorld w
